@@ -180,6 +180,10 @@ func gridE(tier string) []tcpx.Spec {
 				}
 			}
 		}
+		// both relay directions fail, the client's first
+		for _, real := range []bool{false, true} {
+			out = append(out, tcpx.Spec{TCPBuf: 700, RealMetrics: real, Conns: []tcpx.ConnSpec{{Class: "relay-client-then-gone", Cipher: c}, {Class: "ok", Cipher: c, Up: 20, Down: 30}}})
+		}
 		// sequences: ok then replays, and mixed triples
 		out = append(out, tcpx.Spec{Cache: 10, RealMetrics: true, Conns: []tcpx.ConnSpec{{Class: "ok", Cipher: c, Up: 10, Down: 100}, {Class: "replay-client", Cipher: c, Up: 10, Down: 100}}})
 		if c < 3 {
